@@ -939,7 +939,9 @@ func checkEngineSend(c *Ctx) {
 										continue
 									}
 									for _, r3 := range *bo.Referrers() {
-										if iff, ok := r3.(*ssa.If); ok {
+										// the branch of the fired timer only: a block that the other cases reach as well (all cases empty,
+										// falling through to the same continuation) is not proof that the delay elapsed
+										if iff, ok := r3.(*ssa.If); ok && len(iff.Block().Succs[0].Preds) == 1 {
 											pace[iff.Block().Succs[0]] = true
 										}
 									}
